@@ -18,7 +18,7 @@ from vlib.runner import HarnessError, Mismatch, drive
 PROP = "C19"
 LEVEL = "exploration"
 WORKERS = {"quick": 4, "thorough": 16}
-BUDGET = {"quick": 60, "thorough": 600}
+BUDGET = {"quick": 100, "thorough": 600}
 RULE = (
     "Cases: a generated tree description (depth <= 5) of plain directories, projects (hand-written or "
     "signac-initialised, with 4 spellings of .signac/config, a project document, a cache file and a workspace), "
